@@ -298,7 +298,8 @@ Definition kw_split (a : arguments) (dps : list (str * gparam))
 Lemma pf_prepare_inv : forall d n a b dc r ft fnm pp,
   pf_prepare d (SFunc n a b dc r) ft fnm = Ok pp ->
   kw_split a (doc_params d (SFunc n a b dc r)) = Ok (ir_params (pp_target pp), pp_append pp)
-  /\ ir_params (pp_other pp) = od_of_pairs (sig_pairs a (pos_args a)).
+  /\ ir_params (pp_other pp) = od_of_pairs (sig_pairs a (pos_args a))
+  /\ pp_sig pp = sig_pos_names a.
 Proof.
   intros d n a b dc r ft fnm pp H. unfold pf_prepare in H.
   destruct (match fnm with Some n0 => negb (str_eqb n n0) | None => false end); [discriminate|].
@@ -309,17 +310,18 @@ Proof.
     unfold kw_split.
     destruct (ar_kwarg a) as [k|].
     + destruct (od_get (a_name k) (ir_params i)) as [p|].
-      * destruct (fld_present (g_typ p)); cbn [bind] in H; [|discriminate]. inversion H; subst. split; reflexivity.
-      * cbn [bind] in H. inversion H; subst. split; reflexivity.
-    + cbn [bind] in H. inversion H; subst. split; reflexivity.
+      * destruct (fld_present (g_typ p)); cbn [bind] in H; [|discriminate]. inversion H; subst. repeat split; reflexivity.
+      * cbn [bind] in H. inversion H; subst. repeat split; reflexivity.
+    + cbn [bind] in H. inversion H; subst. repeat split; reflexivity.
   - cbn [bind] in H. unfold kw_split.
     assert (E : (match d with Some _ | _ => @nil (str * gparam) end) = []) by (destruct d; reflexivity).
     destruct (ar_kwarg a) as [k|]; cbn [ir_params od_get bind] in H; inversion H; subst; cbn [pp_target pp_append pp_other ir_params fst snd];
-      destruct d; split; reflexivity.
+      destruct d; repeat split; reflexivity.
 Qed.
 
 Lemma pf_finish_params : forall pp m it ww r, pf_finish pp m it ww = Ok r ->
-  set_names_and_types (fold_left (fun d kv => od_set (fst kv) (snd kv) d) (pp_append pp) (ir_params m)) it ww
+  set_names_and_types (fold_left (fun d kv => od_set (fst kv) (snd kv) d) (pp_append pp)
+                                 (sort_by_sig (pp_sig pp) (ir_params m))) it ww
   = Ok (ir_params r).
 Proof.
   intros pp m it ww r H. unfold pf_finish in H.
@@ -329,6 +331,99 @@ Proof.
   - inversion H; reflexivity.
   - inversion H; reflexivity.
   - destruct (set_name_and_type _ p it ww); cbn [bind] in H; [|discriminate]. inversion H; reflexivity.
+Qed.
+
+(* ------------------------------------------------------------------ *)
+(* sorting the merged map into signature order                         *)
+(* ------------------------------------------------------------------ *)
+Lemma filter_neq_notin' : forall (x : str) l, ~ In x l -> filter (fun y => negb (str_eqb x y)) l = l.
+Proof. exact filter_neq_notin. Qed.
+
+Lemma od_get_app : forall {A} k (l1 l2 : list (str * A)),
+  od_get k (l1 ++ l2) = match od_get k l1 with Some v => Some v | None => od_get k l2 end.
+Proof.
+  intros A k l1 l2; induction l1 as [|[k0 v0] l1 IH]; cbn [app od_get]; [reflexivity|].
+  destruct (str_eqb k k0); [reflexivity|exact IH].
+Qed.
+
+Lemma dedup_first_NoDup_id : forall l, NoDup l -> dedup_first l = l.
+Proof.
+  induction l as [|x r IH]; intros H; cbn [dedup_first]; [reflexivity|].
+  inversion H as [|? ? Hx Hr]; subst. rewrite IH by exact Hr. rewrite filter_neq_notin by exact Hx. reflexivity.
+Qed.
+
+Lemma od_keys_filter_fst : forall (f : str -> bool) (ps : list (str * gparam)),
+  od_keys (filter (fun kv => f (fst kv)) ps) = filter f (od_keys ps).
+Proof.
+  intros f ps; induction ps as [|[k v] ps IH]; cbn [filter od_keys map fst]; [reflexivity|].
+  destruct (f k); cbn [map fst]; unfold od_keys in IH; rewrite IH; reflexivity.
+Qed.
+
+Lemma od_get_filter_fst : forall (f : str -> bool) (ps : list (str * gparam)) k, f k = true ->
+  od_get k (filter (fun kv => f (fst kv)) ps) = od_get k ps.
+Proof.
+  intros f ps k Hk; induction ps as [|[k0 v] ps IH]; cbn [filter od_get fst]; [reflexivity|].
+  destruct (f k0) eqn:E; cbn [od_get].
+  - destruct (str_eqb k k0); [reflexivity|exact IH].
+  - destruct (str_eqb k k0) eqn:E2; [apply str_eqb_eq in E2; subst; congruence|exact IH].
+Qed.
+
+Lemma od_get_filter_fst_none : forall (f : str -> bool) (ps : list (str * gparam)) k, f k = false ->
+  od_get k (filter (fun kv => f (fst kv)) ps) = None.
+Proof.
+  intros f ps k Hk. apply od_get_None_iff. rewrite od_keys_filter_fst. intros Hin. apply filter_In in Hin.
+  destruct Hin as [_ Hin]. congruence.
+Qed.
+
+Definition pick (ps : list (str * gparam)) (k : str) : list (str * gparam) :=
+  match od_get k ps with Some v => [(k, v)] | None => [] end.
+
+Lemma flat_map_pick_keys : forall ps l,
+  od_keys (flat_map (pick ps) l) = filter (fun k => mem_str k (od_keys ps)) l.
+Proof.
+  intros ps l; induction l as [|x l IH]; cbn [flat_map filter]; [reflexivity|].
+  unfold od_keys in *. rewrite map_app, IH. unfold pick.
+  destruct (od_get x ps) as [v|] eqn:E.
+  - assert (Hm : mem_str x (map fst ps) = true) by (apply mem_str_In; eapply od_get_Some_In_keys; exact E).
+    rewrite Hm. reflexivity.
+  - assert (Hm : mem_str x (map fst ps) = false) by (apply mem_str_false; apply od_get_None_iff; exact E).
+    rewrite Hm. reflexivity.
+Qed.
+
+Lemma flat_map_pick_get : forall ps l k, NoDup l ->
+  od_get k (flat_map (pick ps) l) = if mem_str k l then od_get k ps else None.
+Proof.
+  intros ps l k; induction l as [|x l IH]; intros Hnd; cbn [flat_map mem_str]; [reflexivity|].
+  inversion Hnd as [|? ? Hx Hl]; subst. rewrite od_get_app. unfold pick at 1.
+  destruct (str_eqb k x) eqn:E.
+  - apply str_eqb_eq in E; subst x. cbn [orb].
+    destruct (od_get k ps) as [v|] eqn:Eg; cbn [od_get]; [rewrite str_eqb_refl; reflexivity|].
+    rewrite IH by exact Hl. apply mem_str_false in Hx. rewrite Hx. reflexivity.
+  - cbn [orb]. destruct (od_get x ps) as [v|]; cbn [od_get]; [rewrite E|]; apply IH; exact Hl.
+Qed.
+
+Lemma sort_by_sig_keys : forall S ps, NoDup S ->
+  od_keys (sort_by_sig S ps) = filter (fun k => mem_str k (od_keys ps)) S
+                               ++ filter (fun k => negb (mem_str k S)) (od_keys ps).
+Proof.
+  intros S ps HS. unfold sort_by_sig. rewrite dedup_first_NoDup_id by exact HS.
+  change (fun k => match od_get k ps with Some v => [(k, v)] | None => [] end) with (pick ps).
+  unfold od_keys at 1. rewrite map_app.
+  change (map fst (flat_map (pick ps) S)) with (od_keys (flat_map (pick ps) S)).
+  rewrite flat_map_pick_keys. f_equal.
+  apply (od_keys_filter_fst (fun k => negb (mem_str k S))).
+Qed.
+
+(* sorting moves entries, it does not change them *)
+Lemma sort_by_sig_get : forall S ps k, NoDup S -> od_get k (sort_by_sig S ps) = od_get k ps.
+Proof.
+  intros S ps k HS. unfold sort_by_sig. rewrite dedup_first_NoDup_id by exact HS.
+  change (fun k => match od_get k ps with Some v => [(k, v)] | None => [] end) with (pick ps).
+  rewrite od_get_app, flat_map_pick_get by exact HS.
+  destruct (mem_str k S) eqn:E.
+  - destruct (od_get k ps) as [v|] eqn:Eg; [reflexivity|].
+    rewrite (od_get_filter_fst_none (fun k => negb (mem_str k S))); [reflexivity|rewrite E; reflexivity].
+  - rewrite (od_get_filter_fst (fun k => negb (mem_str k S))); [reflexivity|rewrite E; reflexivity].
 Qed.
 
 (* ------------------------------------------------------------------ *)
@@ -349,47 +444,127 @@ Proof.
     apply mem_str_In; exact Hk.
 Qed.
 
-Lemma expected_names_NoDup : forall d n a b dc r, fd_facts a -> doc_facts d (SFunc n a b dc r) a ->
-  NoDup (expected_names d (SFunc n a b dc r)).
-Proof.
-  intros d n a b dc r F D. unfold expected_names. cbn [fd_arguments].
-  set (fd := SFunc n a b dc r) in *.
-  assert (HS : NoDup (sig_pos_names a)).
-  { pose proof (ff_nodup a F) as H. apply NoDup_app_l in H. exact H. }
-  assert (HD' : NoDup (doc_pos_names d a fd)).
-  { unfold doc_pos_names. destruct (kwarg_name a); [apply NoDup_filter|]; apply (df_nodup _ _ _ D). }
-  unfold kwarg_documented. destruct (kwarg_name a) as [k|] eqn:Ek.
-  - destruct (mem_str k (doc_names d fd)) eqn:Em.
-    + cbn [opt_list]. rewrite app_assoc. apply NoDup_app_single; [apply NoDup_app_filter; assumption|].
-      intros Hin. apply in_app_or in Hin. destruct Hin as [Hin|Hin].
-      * unfold doc_pos_names in Hin. rewrite Ek in Hin. apply filter_In in Hin. destruct Hin as [_ Hin].
-        rewrite str_eqb_refl in Hin. discriminate.
-      * apply filter_In in Hin. destruct Hin as [Hin _].
-        pose proof (ff_nodup a F) as H. rewrite Ek in H. cbn [opt_list] in H.
-        apply NoDup_remove_2 in H. rewrite app_nil_r in H. tauto.
-    + rewrite app_nil_r. apply NoDup_app_filter; assumption.
-  - rewrite app_nil_r. apply NoDup_app_filter; assumption.
-Qed.
-
 Lemma forallb_sub : forall (f : str -> bool) l l', (forall k, In k l -> In k l') ->
   forallb f l' = true -> forallb f l = true.
 Proof.
   intros f l l' Hs H. rewrite forallb_forall in *. intros x Hx. apply H, Hs, Hx.
 Qed.
 
+(* documented names other than the ** one are parameters of the signature *)
+Lemma doc_pos_names_in_sig : forall d n a b dc r k, doc_facts d (SFunc n a b dc r) a ->
+  In k (doc_pos_names d a (SFunc n a b dc r)) -> In k (sig_pos_names a).
+Proof.
+  intros d n a b dc r k D H. unfold doc_pos_names in H.
+  destruct (kwarg_name a) as [kw|] eqn:Ek.
+  - apply filter_In in H. destruct H as [Hin Hne]. apply (df_sub _ _ _ D) in Hin. rewrite Ek in Hin.
+    apply in_app_or in Hin. destruct Hin as [Hin|[Hin|[]]]; [exact Hin|]. subst. rewrite str_eqb_refl in Hne. discriminate.
+  - apply (df_sub _ _ _ D) in H. rewrite Ek in H. cbn [opt_list] in H. rewrite app_nil_r in H. exact H.
+Qed.
+
+Lemma filter_all_false : forall (f : str -> bool) l, (forall k, In k l -> f k = false) -> filter f l = [].
+Proof.
+  intros f l; induction l as [|x l IH]; intros H; cbn [filter]; [reflexivity|].
+  rewrite (H x) by (left; reflexivity). apply IH. intros k Hk; apply H; right; exact Hk.
+Qed.
+
+Lemma filter_all_true : forall (f : str -> bool) l, (forall k, In k l -> f k = true) -> filter f l = l.
+Proof.
+  intros f l; induction l as [|x l IH]; intros H; cbn [filter]; [reflexivity|].
+  rewrite (H x) by (left; reflexivity). f_equal. apply IH. intros k Hk; apply H; right; exact Hk.
+Qed.
+
+(* inside the domain: the signature's names, then a documented ** parameter *)
+Lemma expected_names_domain : forall d n a b dc r, doc_facts d (SFunc n a b dc r) a ->
+  expected_names d (SFunc n a b dc r)
+  = sig_pos_names a ++ (if kwarg_documented d a (SFunc n a b dc r) then opt_list (kwarg_name a) else []).
+Proof.
+  intros d n a b dc r D. unfold expected_names. cbn [fd_arguments].
+  rewrite (filter_all_false _ (doc_pos_names d a (SFunc n a b dc r))); [reflexivity|].
+  intros k Hk. apply negb_false_iff. apply mem_str_In. eapply doc_pos_names_in_sig; eauto.
+Qed.
+
+Lemma expected_names_NoDup : forall d n a b dc r, fd_facts a -> doc_facts d (SFunc n a b dc r) a ->
+  NoDup (expected_names d (SFunc n a b dc r)).
+Proof.
+  intros d n a b dc r F D. rewrite (expected_names_domain _ _ _ _ _ _ D).
+  pose proof (ff_nodup a F) as H. destruct (kwarg_documented _ _ _); [exact H|].
+  rewrite app_nil_r. apply (NoDup_app_l _ _ H).
+Qed.
+
 Lemma expected_names_sub : forall d n a b dc r k, doc_facts d (SFunc n a b dc r) a ->
   In k (expected_names d (SFunc n a b dc r)) -> In k (sig_pos_names a ++ opt_list (kwarg_name a)).
 Proof.
-  intros d n a b dc r k D H. unfold expected_names in H. cbn [fd_arguments] in H.
-  apply in_app_or in H. destruct H as [H|H].
-  - apply (df_sub _ _ _ D). unfold doc_pos_names in H. destruct (kwarg_name a); [apply filter_In in H; tauto|exact H].
-  - apply in_app_or in H. destruct H as [H|H].
-    + apply filter_In in H. apply in_or_app; left; tauto.
-    + destruct (kwarg_documented _ _ _); [apply in_or_app; right; exact H|destruct H].
+  intros d n a b dc r k D H. rewrite (expected_names_domain _ _ _ _ _ _ D) in H.
+  apply in_app_or in H. apply in_or_app. destruct H as [H|H]; [left; exact H|].
+  destruct (kwarg_documented _ _ _); [right; exact H|destruct H].
 Qed.
 
-(* THE order parse.function produces: documented names (docstring order, ** parameter taken out), then
-   the undocumented ones in signature order, then a documented ** parameter.  For every set order. *)
+(* a successful parse, stage by stage *)
+Definition append_kw (app m : list (str * gparam)) : list (str * gparam) :=
+  fold_left (fun d0 kv => od_set (fst kv) (snd kv) d0) app m.
+
+Lemma parse_function_structure : forall pi pj d n a b dc rr it ww ft fnm r,
+  fd_facts a -> doc_facts d (SFunc n a b dc rr) a ->
+  parse_function pi pj d (SFunc n a b dc rr) it ww ft fnm = Ok r ->
+  exists tparams app m,
+    kw_split a (doc_params d (SFunc n a b dc rr)) = Ok (tparams, app)
+    /\ merge_params pi tparams (sig_pairs a (pos_args a)) = Ok m
+    /\ set_names_and_types (append_kw app (sort_by_sig (sig_pos_names a) m)) it ww = Ok (ir_params r)
+    /\ od_keys (append_kw app (sort_by_sig (sig_pos_names a) m)) = expected_names d (SFunc n a b dc rr).
+Proof.
+  intros pi pj d n a b dc rr it ww ft fnm r F D H.
+  unfold parse_function in H.
+  destruct (pf_prepare d (SFunc n a b dc rr) ft fnm) as [pp|] eqn:Epp; cbn [bind] in H; [|discriminate].
+  destruct (ir_merge pi pj (pp_target pp) (pp_other pp)) as [m|] eqn:Em; cbn [bind] in H; [|discriminate].
+  apply pf_prepare_inv in Epp. destruct Epp as (Ekw & Eother & Esig).
+  apply ir_merge_params in Em. rewrite Eother in Em.
+  apply pf_finish_params in H. rewrite Esig in H.
+  assert (HS : NoDup (sig_pos_names a)) by (apply (NoDup_app_l _ _ (ff_nodup a F))).
+  assert (Hop : od_of_pairs (sig_pairs a (pos_args a)) = sig_pairs a (pos_args a)).
+  { apply od_of_pairs_NoDup. rewrite sig_pairs_keys. exact HS. }
+  rewrite Hop in Em.
+  exists (ir_params (pp_target pp)), (pp_append pp), (ir_params m).
+  split; [exact Ekw|]. split; [exact Em|]. split; [exact H|].
+  apply merge_params_keys in Em; [|rewrite sig_pairs_keys; exact HS].
+  rewrite sig_pairs_keys in Em. fold (sig_pos_names a) in Em.
+  (* keys after sorting: the signature's names (all present), then the target's names that are no parameter *)
+  assert (Ksort : od_keys (sort_by_sig (sig_pos_names a) (ir_params m))
+                  = sig_pos_names a
+                    ++ filter (fun k => negb (mem_str k (sig_pos_names a))) (od_keys (ir_params (pp_target pp)))).
+  { rewrite sort_by_sig_keys by exact HS. rewrite Em. f_equal.
+    - apply filter_all_true. intros k Hk. apply mem_str_In.
+      destruct (mem_str k (od_keys (ir_params (pp_target pp)))) eqn:E.
+      + apply in_or_app; left. apply mem_str_In; exact E.
+      + apply in_or_app; right. apply filter_In. split; [exact Hk|rewrite E; reflexivity].
+    - rewrite filter_app. rewrite (filter_all_false _ (filter _ (sig_pos_names a))); [apply app_nil_r|].
+      intros k Hk. apply filter_In in Hk. destruct Hk as [Hk _]. apply negb_false_iff. apply mem_str_In; exact Hk. }
+  unfold append_kw. unfold kw_split in Ekw. unfold expected_names. cbn [fd_arguments].
+  unfold doc_pos_names, kwarg_documented, kwarg_name.
+  destruct (ar_kwarg a) as [karg|] eqn:Ek; cbn [option_map opt_list].
+  - destruct (od_get (a_name karg) (doc_params d (SFunc n a b dc rr))) as [p|] eqn:Eg.
+    + destruct (fld_present (g_typ p)); [|discriminate].
+      injection Ekw as Et Ea. rewrite <- Ea. cbn [fold_left fst snd].
+      assert (Hin : In (a_name karg) (doc_names d (SFunc n a b dc rr))) by (eapply od_get_Some_In_keys; exact Eg).
+      apply mem_str_In in Hin. rewrite Hin.
+      assert (Kt : od_keys (ir_params (pp_target pp))
+                   = filter (fun x => negb (str_eqb (a_name karg) x)) (doc_names d (SFunc n a b dc rr))).
+      { rewrite <- Et. apply od_keys_pop. apply (df_nodup _ _ _ D). }
+      rewrite od_keys_set_absent.
+      * rewrite Ksort, Kt. rewrite <- app_assoc. reflexivity.
+      * rewrite Ksort, Kt. intros Hx. apply in_app_or in Hx. destruct Hx as [Hx|Hx].
+        -- pose proof (ff_nodup a F) as Hnd. unfold kwarg_name in Hnd. rewrite Ek in Hnd. cbn [option_map opt_list] in Hnd.
+           apply NoDup_remove_2 in Hnd. rewrite app_nil_r in Hnd. tauto.
+        -- apply filter_In in Hx. destruct Hx as [Hx _]. apply filter_In in Hx. destruct Hx as [_ Hx].
+           rewrite str_eqb_refl in Hx. discriminate.
+    + injection Ekw as Et Ea. rewrite <- Ea. cbn [fold_left].
+      assert (Hnot : ~ In (a_name karg) (doc_names d (SFunc n a b dc rr))) by (apply od_get_None_iff; exact Eg).
+      pose proof Hnot as Hm. apply mem_str_false in Hm. rewrite Hm. rewrite app_nil_r.
+      rewrite filter_neq_notin by exact Hnot. rewrite Ksort, <- Et. reflexivity.
+  - injection Ekw as Et Ea. rewrite <- Ea. cbn [fold_left]. rewrite app_nil_r. rewrite Ksort, <- Et. reflexivity.
+Qed.
+
+(* THE order parse.function produces: the signature's positional and keyword-only names in source
+   order, then a documented ** parameter.  For every set order. *)
 Theorem parse_function_names : forall pi pj d fd it ww ft fnm r, C07_domain d fd = true ->
   parse_function pi pj d fd it ww ft fnm = Ok r -> od_keys (ir_params r) = expected_names d fd.
 Proof.
@@ -397,47 +572,11 @@ Proof.
   unfold C07_domain in Hdom. apply andb_true_iff in Hdom. destruct Hdom as [Hwf Hdoc].
   destruct (wf_fd_facts _ Hwf) as (n & a & b & dc & rr & -> & F).
   pose proof (wf_doc_facts _ _ _ _ _ _ Hdoc) as D.
-  unfold parse_function in H.
-  destruct (pf_prepare d (SFunc n a b dc rr) ft fnm) as [pp|] eqn:Epp; cbn [bind] in H; [|discriminate].
-  destruct (ir_merge pi pj (pp_target pp) (pp_other pp)) as [m|] eqn:Em; cbn [bind] in H; [|discriminate].
-  apply pf_prepare_inv in Epp. destruct Epp as [Ekw Eother].
-  apply ir_merge_params in Em. rewrite Eother in Em.
-  apply pf_finish_params in H.
-  assert (HS : NoDup (sig_pos_names a)) by (apply (NoDup_app_l _ _ (ff_nodup a F))).
-  assert (Hop : od_of_pairs (sig_pairs a (pos_args a)) = sig_pairs a (pos_args a)).
-  { apply od_of_pairs_NoDup. rewrite sig_pairs_keys. exact HS. }
-  rewrite Hop in Em.
-  apply merge_params_keys in Em; [|rewrite sig_pairs_keys; exact HS].
-  rewrite sig_pairs_keys in Em. fold (sig_pos_names a) in Em.
-  assert (Hexp_nd : NoDup (expected_names d (SFunc n a b dc rr))) by (apply expected_names_NoDup; assumption).
-  assert (Hexp_ok : forallb name_ok (expected_names d (SFunc n a b dc rr)) = true).
-  { eapply forallb_sub; [|apply (ff_ok a F)]. intros k Hk. eapply expected_names_sub; eauto. }
-  assert (K1 : od_keys (fold_left (fun d0 kv => od_set (fst kv) (snd kv) d0) (pp_append pp) (ir_params m))
-               = expected_names d (SFunc n a b dc rr)).
-  { unfold kw_split in Ekw. unfold expected_names. cbn [fd_arguments].
-    unfold doc_pos_names, kwarg_documented, kwarg_name.
-    destruct (ar_kwarg a) as [karg|] eqn:Ek; cbn [option_map opt_list].
-    - destruct (od_get (a_name karg) (doc_params d (SFunc n a b dc rr))) as [p|] eqn:Eg.
-      + destruct (fld_present (g_typ p)); [|discriminate].
-        injection Ekw as Et Ea. rewrite <- Ea. cbn [fold_left fst snd].
-        assert (Hin : In (a_name karg) (doc_names d (SFunc n a b dc rr))) by (eapply od_get_Some_In_keys; exact Eg).
-        apply mem_str_In in Hin. rewrite Hin.
-        assert (Kt : od_keys (ir_params (pp_target pp))
-                     = filter (fun x => negb (str_eqb (a_name karg) x)) (doc_names d (SFunc n a b dc rr))).
-        { rewrite <- Et. apply od_keys_pop. apply (df_nodup _ _ _ D). }
-        rewrite od_keys_set_absent.
-        * rewrite Em, Kt. rewrite <- app_assoc. reflexivity.
-        * rewrite Em, Kt. intros Hx. apply in_app_or in Hx. destruct Hx as [Hx|Hx].
-          -- apply filter_In in Hx. destruct Hx as [_ Hx]. rewrite str_eqb_refl in Hx. discriminate.
-          -- apply filter_In in Hx. destruct Hx as [Hx _].
-             pose proof (ff_nodup a F) as Hnd. unfold kwarg_name in Hnd. rewrite Ek in Hnd. cbn [option_map opt_list] in Hnd.
-             apply NoDup_remove_2 in Hnd. rewrite app_nil_r in Hnd. tauto.
-      + injection Ekw as Et Ea. rewrite <- Ea. cbn [fold_left].
-        assert (Hnot : ~ In (a_name karg) (doc_names d (SFunc n a b dc rr))) by (apply od_get_None_iff; exact Eg).
-        pose proof Hnot as Hm. apply mem_str_false in Hm. rewrite Hm. rewrite app_nil_r.
-        rewrite filter_neq_notin by exact Hnot. rewrite Em, <- Et. reflexivity.
-    - injection Ekw as Et Ea. rewrite <- Ea. cbn [fold_left]. rewrite app_nil_r. rewrite Em, <- Et. reflexivity. }
-  apply set_names_and_types_keys in H; [rewrite H; exact K1|rewrite K1; exact Hexp_nd|rewrite K1; exact Hexp_ok].
+  destruct (parse_function_structure _ _ _ _ _ _ _ _ _ _ _ _ _ F D H) as (tp & app & m & _ & _ & Esn & Ekeys).
+  apply set_names_and_types_keys in Esn.
+  - rewrite Esn. exact Ekeys.
+  - rewrite Ekeys. apply expected_names_NoDup; assumption.
+  - rewrite Ekeys. eapply forallb_sub; [|apply (ff_ok a F)]. intros k Hk. eapply expected_names_sub; eauto.
 Qed.
 
 (* each exactly once *)
@@ -450,60 +589,31 @@ Proof.
   apply expected_names_NoDup; [exact F|apply wf_doc_facts; exact Hdoc].
 Qed.
 
-(* the exact condition under which that order is the source order *)
+(* the exact condition under which these are the names Python sees, in source order: an existing **
+   parameter is documented (an undocumented one is dropped) *)
 Lemma order_guard_iff : forall d fd, C07_domain d fd = true ->
   (expected_names d fd = sig_names fd <-> order_guard d fd = true).
 Proof.
   intros d fd Hdom. unfold C07_domain in Hdom. apply andb_true_iff in Hdom. destruct Hdom as [Hwf Hdoc].
   destruct (wf_fd_facts _ Hwf) as (n & a & b & dc & rr & -> & F).
   pose proof (wf_doc_facts _ _ _ _ _ _ Hdoc) as D.
-  rewrite (sig_names_spec _ _ _ _ _ F).
-  assert (HS : NoDup (sig_pos_names a)) by (apply (NoDup_app_l _ _ (ff_nodup a F))).
-  unfold expected_names, order_guard. cbn [fd_arguments]. unfold kwarg_documented.
+  rewrite (sig_names_spec _ _ _ _ _ F), (expected_names_domain _ _ _ _ _ _ D).
+  unfold order_guard. cbn [fd_arguments].
   destruct (kwarg_name a) as [k|] eqn:Ek; cbn [opt_list].
-  - assert (HkS : ~ In k (sig_pos_names a)).
-    { pose proof (ff_nodup a F) as Hnd. rewrite Ek in Hnd. cbn [opt_list] in Hnd.
-      apply NoDup_remove_2 in Hnd. rewrite app_nil_r in Hnd. exact Hnd. }
-    assert (HkD : ~ In k (doc_pos_names d a (SFunc n a b dc rr))).
-    { unfold doc_pos_names. rewrite Ek. intros Hx. apply filter_In in Hx. destruct Hx as [_ Hx].
-      rewrite str_eqb_refl in Hx. discriminate. }
-    destruct (mem_str k (doc_names d (SFunc n a b dc rr))) eqn:Em.
-    + rewrite andb_true_r. rewrite app_assoc. split.
-      * intros H. apply app_inj_tail in H. destruct H as [H _]. apply is_prefix_spec. eexists. symmetry. exact H.
-      * intros H. rewrite prefix_then_rest by assumption. reflexivity.
-    + rewrite andb_false_r. rewrite app_nil_r. split; [|discriminate].
-      intros H. exfalso.
-      assert (Hin : In k (doc_pos_names d a (SFunc n a b dc rr) ++ filter (fun k0 => negb (mem_str k0 (doc_pos_names d a (SFunc n a b dc rr)))) (sig_pos_names a))).
-      { rewrite H. apply in_or_app; right; left; reflexivity. }
-      apply in_app_or in Hin. destruct Hin as [Hin|Hin]; [tauto|]. apply filter_In in Hin. tauto.
-  - rewrite andb_true_r, !app_nil_r. split.
-    + intros H. apply is_prefix_spec. eexists. symmetry. exact H.
-    + intros H. apply prefix_then_rest; assumption.
+  - destruct (kwarg_documented d a (SFunc n a b dc rr)); [split; reflexivity|].
+    split; [|discriminate]. intros H. apply (f_equal (@List.length _)) in H. rewrite !app_length in H. cbn in H. lia.
+  - destruct (kwarg_documented d a (SFunc n a b dc rr)); split; reflexivity.
 Qed.
 
-(* no parameter that is documented or sits in the signature is lost, none is duplicated: when every
-   ** parameter is documented, the result is a permutation of what Python sees *)
-Lemma expected_names_perm : forall d fd, C07_domain d fd = true ->
-  (match fd_arguments fd with
-   | Some a => match kwarg_name a with Some _ => kwarg_documented d a fd | None => true end
-   | None => false end) = true ->
-  Permutation (expected_names d fd) (sig_names fd).
+(* the positional and keyword-only parameters are ALWAYS there, once each, in source order *)
+Lemma sig_pos_prefix : forall pi pj d fd it ww ft fnm r a, C07_domain d fd = true -> fd_arguments fd = Some a ->
+  parse_function pi pj d fd it ww ft fnm = Ok r ->
+  exists rest, od_keys (ir_params r) = sig_pos_names a ++ rest
+               /\ (rest = [] \/ rest = opt_list (kwarg_name a)).
 Proof.
-  intros d fd Hdom Hkw. pose proof Hdom as Hdom'.
+  intros pi pj d fd it ww ft fnm r a Hdom Ha H. rewrite (parse_function_names _ _ _ _ _ _ _ _ _ Hdom H).
   unfold C07_domain in Hdom. apply andb_true_iff in Hdom. destruct Hdom as [Hwf Hdoc].
-  destruct (wf_fd_facts _ Hwf) as (n & a & b & dc & rr & -> & F).
-  pose proof (wf_doc_facts _ _ _ _ _ _ Hdoc) as D.
-  cbn [fd_arguments] in Hkw.
-  apply NoDup_Permutation.
-  - apply expected_names_NoDup; assumption.
-  - rewrite (sig_names_spec _ _ _ _ _ F). apply (ff_nodup a F).
-  - intros k. rewrite (sig_names_spec _ _ _ _ _ F). split.
-    + apply expected_names_sub; exact D.
-    + intros Hk. unfold expected_names. cbn [fd_arguments].
-      apply in_app_or in Hk. destruct Hk as [Hk|Hk].
-      * destruct (mem_str k (doc_pos_names d a (SFunc n a b dc rr))) eqn:Em.
-        -- apply in_or_app; left. apply mem_str_In; exact Em.
-        -- apply in_or_app; right. apply in_or_app; left. apply filter_In. split; [exact Hk|]. rewrite Em; reflexivity.
-      * destruct (kwarg_name a) as [k0|]; [|destruct Hk]. rewrite Hkw.
-        apply in_or_app; right. apply in_or_app; right. exact Hk.
+  destruct (wf_fd_facts _ Hwf) as (n & a' & b & dc & rr & -> & F). cbn [fd_arguments] in Ha. inversion Ha; subst a'.
+  pose proof (wf_doc_facts _ _ _ _ _ _ Hdoc) as D. rewrite (expected_names_domain _ _ _ _ _ _ D).
+  eexists. split; [reflexivity|]. destruct (kwarg_documented _ _ _); [right|left]; reflexivity.
 Qed.
